@@ -296,6 +296,23 @@ def sibling(ctx, qn, own_ok, closure, members):
                 ok_atoms = False
                 ctx.violation('R3', at, fi.qualname, 'extra-condition',
                               f'the outcome depends on `{extra_[0][:100]}`, not only on the accepted-category test')
+            elif isinstance(core, ast.Call) and F.is_name(core.func, 'isinstance') and len(core.args) == 2 and src(core.args[0]) == parse_src \
+                    and isinstance(core.args[1], ast.Name) and ctx.prog.resolve(fi.module, core.args[1].id) is not None \
+                    and getattr(ctx.prog.resolve(fi.module, core.args[1].id), 'kind', None) == 'class':
+                # a test on the CLASS of the parsed token: shared structure comes in several classes (signature tokens, bar tokens,
+                # bounding boxes ...), so a class test separates some of it from the rest before the category is looked at
+                tested = ctx.prog.resolve(fi.module, core.args[1].id).value
+                outside = sorted(c_ for c_ in _listener_classes_built(ctx) if c_ not in ('NoteRestToken', 'ChordToken')
+                                 and tested not in ctx.prog.mro(ctx.prog.cls(f'{N.TOKENS}.{c_}')))
+                inside_only_notes = not outside
+                if outside:
+                    ctx.violation('R3', at, fi.qualname, f'class-test-before-category:{core.args[1].id}',
+                                  f'the token produced by the kern importer is tested with isinstance(..., {core.args[1].id}) before its category: the '
+                                  f'kern listener also builds {outside[:4]}, which are not {core.args[1].id}s - shared structure of those classes '
+                                  f'(bounding boxes, notes that are structure in other spines) takes the other branch')
+                    ok_atoms = False
+                else:
+                    raise AnalysisError(f'{at}: the class test `{src(node)[:80]}` on the parsed token is not followed')
             elif parse_src in src(node):
                 # a test about the parsed token that is none of the recognised forms of the accepted-category test: the rule
                 # cannot tell what it accepts - unknown, not wrong
@@ -383,6 +400,21 @@ def _whole_cell(ctx):
         if isinstance(n, ast.If) and 'EOF' in src(n.test) and any(isinstance(s, ast.Raise) for b in n.body + n.orelse for s in ast.walk(b)):
             return True
     return False
+
+
+def _listener_classes_built(ctx):
+    """Names of the token classes (of kernpy.core.tokens) the hand-written parse-tree listener constructs."""
+    mod = ctx.prog.module(N.LISTENER)
+    tok = ctx.prog.module(N.TOKENS)
+    out = set()
+    for n in ast.walk(mod.tree):
+        if isinstance(n, ast.Call) and isinstance(n.func, ast.Name) and n.func.id.endswith('Token'):
+            ci = ctx.prog.classes.get(f'{N.TOKENS}.{n.func.id}')
+            if ci is not None:
+                out.add(n.func.id)
+    if len(out) < 5:
+        raise AnalysisError(f'{N.LISTENER}: token constructions not found (anchor moved)')
+    return out
 
 
 def _listener_categories(ctx):
